@@ -26,8 +26,6 @@ func init() {
 		"builtin:print":   func(*Interp, *G, *FuncV, []Value) Value { return nil },
 		"builtin:println": func(*Interp, *G, *FuncV, []Value) Value { return nil },
 		"builtin:recover": func(*Interp, *G, *FuncV, []Value) Value { return IfaceV{} },
-		"builtin:min":     biMinMax(true),
-		"builtin:max":     biMinMax(false),
 
 		// ---- harness API
 		harnessPkg + ".NondetBool":      hNondetBool,
@@ -773,6 +771,11 @@ func (in *Interp) ctxMethod(c *CtxObj, name string, args []Value) Value {
 		}
 		return *c.Err
 	case "Value":
+		for x := c; x != nil; x = x.Parent {
+			if x.vkey != nil && in.equal(x.vkey, args[0]).IsTrue() {
+				return x.vval
+			}
+		}
 		return IfaceV{}
 	}
 	panic(unsupported("context method " + name))
@@ -848,6 +851,13 @@ func (in *Interp) fireTimer(t *TimerObj) {
 	in.st.now = in.tc.Ite(in.tc.BVCmp(OpBVSlt, in.st.now, t.deadline), t.deadline, in.st.now)
 	t.Fires++
 	in.st.fires++
+	if t.Fn != nil && t.Fn.Intrinsic == "ctx.deadline" {
+		e := in.sentinel("context.DeadlineExceeded", "context deadline exceeded")
+		iv := in.errIface(e)
+		in.cancelVC = append([]int(nil), t.armVC...)
+		in.cancelCtx(t.Fn.Data.(*CtxObj), &iv)
+		return
+	}
 	if t.Fn != nil {
 		ng := in.newG(nil, t.Fn, nil, "time.AfterFunc")
 		ng.name = fmt.Sprintf("timer%d.%d", t.id, t.Fires)
